@@ -2,23 +2,32 @@
 // follows the documented lifecycle under faults.
 //
 // A case is a fault script executed against client <-> netx.Tap <-> in-process
-// gopcua server (policy None, AutoReconnect on). Faults: RST, orderly close,
-// cut in the middle of a frame, blackhole (frames swallowed), stall (frames
-// held and delivered late), server restart (a fresh server instance: channel
-// and session unknown) with or without an outage, proxy refusing connections.
-// Placements: a named frame of the first connect (HEL .. UpdateNamespaces
-// Read), idle steady state, the request or the response of a Read in flight,
-// a named frame of the next reconnect attempt. Then the network heals and the
-// client is closed (or, CloseEarly, it is closed while the outage lasts).
+// gopcua server (policy None, AutoReconnect on, DialTimeout 1 s). Faults: RST,
+// orderly close (either losing the frame they are placed on or right behind
+// it), cut in the middle of a frame, blackhole (frames swallowed in one or both
+// directions), stall (frames held and delivered late), server restart (a fresh
+// server instance: channel and session unknown) at once or after an outage,
+// proxy refusing connections. Placements: a named frame of the first connect
+// (HEL .. UpdateNamespaces Read), idle steady state, the request or the
+// response of a Read in flight, a named frame of the next reconnect attempt
+// (HEL .. TransferSubscriptions). Then the network heals and the client is
+// closed - or (CloseEarly) it is closed while the outage / the reconnect lasts,
+// optionally a few microseconds after a named frame of the reconnect (CloseOn),
+// or (Burst) 6-16 clients are closed i*step microseconds after a reset.
 //
 // Oracle (from the five state comments in connstate.go, deliberately minimal):
 // only the five documented states are reported; Connecting never after the
-// first Connected, Reconnecting never before it; nothing but Closed is
-// reported after Close has returned and State() is Closed from then on; after
-// heal State()==Connected and a Read succeeds within 20 s (confirmed 3/3,
-// starve gate, control client against the server); after Close the proxy sees
-// no new connection during 1.5 s and no client-side gopcua goroutine that was
-// not there before NewClient is left (25 s confirmation).
+// first Connected, Reconnecting never before it; after a failed Connect the
+// client does not claim to be Connected; from 100 ms after Close has returned
+// nothing but Closed is reported and State() is Closed (Close does not wait for
+// the monitor goroutine: what that goroutine was just reporting cannot be told
+// from a report made a moment before the return); after heal State()==Connected
+// and a Read succeeds within 20 s (a client that has stopped trying for >= 10 s
+// or one that keeps failing while a control client with the same timeouts
+// works; confirmed 3/3 on fresh servers; heartbeat starvation gate); after
+// Close the proxy sees no new connection during 1.5 s and no client-side gopcua
+// goroutine that was not there before NewClient is left (re-checked until 25 s
+// after Close).
 package c25
 
 import (
@@ -488,7 +497,11 @@ type runner struct {
 	infra   error
 }
 
-func (r *runner) class(format string, a ...any) { r.classes[fmt.Sprintf(format, a...)] = true }
+func (r *runner) class(format string, a ...any) {
+	r.rmu.Lock()
+	r.classes[fmt.Sprintf(format, a...)] = true
+	r.rmu.Unlock()
+}
 
 func faultClass(f Fault) string {
 	switch f.Kind {
